@@ -37,7 +37,9 @@ MAX_S = {"quick": 900, "thorough": 7200}
 PATTERNS2 = [(1, 0), (0, 1), (1, 1), (1, -1), (-1, 1)]
 RHS = [-1, 1, 2]
 TYPES = "ULSN"
-BOUNDS2 = [((0, 2), (0, 2)), ((-1, 1), (0, 3)), ((0, 3), (1, 1)), ((-1, 1), (-1, 1)), ((0.3, 0.5), (0, 2)), ((0, 0.5), (0.25, 3)),
+BOUNDS2 = [((0, 2), (0, 2)), ((-1, 1), (0, 3)), ((0, 3), (1, 1)), ((-1, 1), (-1, 1)),
+           ((1, 1), (0, 0)), ((1, 1), (1, 1)),     # every variable fixed by its bounds: the rows decide between the one point and infeasibility
+           ((0.3, 0.5), (0, 2)), ((0, 0.5), (0.25, 3)),
            ((0.25, 0.25), (0, 2))]   # the last: a variable fixed (l == u) to a fraction, as fix_time_window does with a relaxed result
 COSTS2 = [(1, -1), (-1, -2), (0, 1), (-1, 0.5)]
 BOOLS2 = [(), (0,), (0, 1)]
@@ -60,7 +62,7 @@ def tiny_cases(tier):
     out = []
     for rs in rowsets:
         for bi, bounds in enumerate(BOUNDS2):
-            if bi >= 4 and len(rs) == 2 and tier == "quick":
+            if bi >= 6 and len(rs) == 2 and tier == "quick":
                 continue   # fractional bounds: with at most one row in the quick tier
             for bools in BOOLS2:
                 for mv in (MAPVARS if (len(rs) <= 1 or tier == "thorough") else MAPVARS[:1] + MAPVARS[2:3]):
